@@ -23,6 +23,7 @@ type PropConfig struct {
 	NotDecided []string `json:"not_decided"`
 	Assumptions []string `json:"assumptions"`
 	Discipline  bool     `json:"discipline"`
+	EventForwarding bool `json:"event_forwarding"`
 }
 
 func loadConfig() (map[string]*PropConfig, error) {
